@@ -467,6 +467,9 @@ class BehavioralRTLIRTypeCheckVisitorL1( bir.BehavioralRTLIRNodeVisitor ):
   def _get_nbits_from_value( s, value ):
     if -1 <= value <= 1:
       return 1
+    if isinstance( value, int ):
+      # exact for integers of any size (log2 rounds from 2**53 on)
+      return (abs(value)-1).bit_length() if value < 0 else value.bit_length()
     if value < 0:
       return math.ceil(math.log2(abs(value)))
     else:
